@@ -70,7 +70,7 @@ PROPS["C20"] = {"units": [], "engine": "kani",
 
 PROPS["C11"] = {"units": ["nav"], "kani": [], "replay": [], "title": "Code-map offsets navigate correctly", "level": "proof",
     "level_text": "Value::get_fragment, get_array_fragment, Object::get_fragment and Entry::get_fragment are proved (with termination) to return the i-th fragment of the pre-order fragment list and the overshoot past the end; the mapped iterators over arrays and objects are proved to yield the offsets index+1+sum of the preceding sub-tree sizes given a code map of the shape C05 guarantees. Key-based mapped lookups: the four iterators generated by `mapped_entries_iter!` (MappedEntries, MappedEntriesWithIndex, MappedValues, MappedValuesWithIndex) are extracted from the macro-expanded crate (rule R13) and their `next` is proved: for the next position i of the key it yields the code-map index offset + (entries skipped: 2 + sub-tree size each), the key at +1 and the value at +2, with the skipping loop proved to terminate and to keep the state invariant; `object::Indexes::next` is proved against its view. The four constructors (get_mapped_entries, get_mapped_entries_with_index, get_mapped, get_mapped_with_index) are proved to establish that state invariant from `the code map has the parse shape from offset + 1 on` with the key's positions (the index lookup expression is modelled, R12, by the assumed IndexMap contract), and the four `get_unique_mapped*` lookups are proved to return nothing / the single entry with its three code-map indexes / the first two entries as a Duplicate, for whatever the positions of the key are. Value::traverse() / Traverse::next (explicit stack) are proved to yield exactly the pre-order fragment list that get_fragment indexes, numbered 0, 1, 2, ...",
-    "level_note": "assumed: vstd's slice iterator specs; payload types opaque; R13: macro-generated items are taken from `cargo +nightly rustc -- -Zunpretty=expanded` run on the current tree on every check. R12: in the constructors get_mapped_* the expression `self.indexes.get(&self.entries, key).map(IntoIterator::into_iter).unwrap_or_default()` is replaced by an assumed stub yielding the increasing positions of the key (IndexMap's contract, C06). The traversal: Value::traverse() and Traverse::next are proved to yield exactly the pre-order fragment list that get_fragment indexes, numbered from 0 (explicit stack, no recursion); R12: `self.stack.extend(v.sub_fragments().rev())` is replaced by an assumed stub (pushes the remaining sub-fragments, last first); FragmentRef::sub_fragments and the iter_mapped constructors are proved. Conversions: TryFromJson::try_from_json (index 0), the leaf conversions `()`, `bool`, `String` (kind mismatch reported at the index given, with the kind found), TryFromJsonObject's default method and the pass-through conversions Box<T>, Option<T> are proved against a trait-level relation conv_ok. Not under contract: count / volume (`filter` + `count`), TryFromJson for Vec / BTreeMap (closures, collect, `?` with From); the twelve numeric leaf conversions (from the macro-expanded crate) are proved -- bounded stand-in only",
+    "level_note": "assumed: vstd's slice iterator specs; payload types opaque; R13: macro-generated items are taken from `cargo +nightly rustc -- -Zunpretty=expanded` run on the current tree on every check. R12: in the constructors get_mapped_* the expression `self.indexes.get(&self.entries, key).map(IntoIterator::into_iter).unwrap_or_default()` is replaced by an assumed stub yielding the increasing positions of the key (IndexMap's contract, C06). The traversal: Value::traverse() and Traverse::next are proved to yield exactly the pre-order fragment list that get_fragment indexes, numbered from 0 (explicit stack, no recursion); R12: `self.stack.extend(v.sub_fragments().rev())` is replaced by an assumed stub (pushes the remaining sub-fragments, last first); FragmentRef::sub_fragments and the iter_mapped constructors are proved. Conversions: TryFromJson::try_from_json (index 0), the leaf conversions `()`, `bool`, `String` (kind mismatch reported at the index given, with the kind found), TryFromJsonObject's default method and the pass-through conversions Box<T>, Option<T> are proved against a trait-level relation conv_ok. Not under contract: count / volume (`filter` + `count`), TryFromJson for Vec (map + collect); proved as well: the twelve numeric leaf conversions (from the macro-expanded crate) and BTreeMap<K, V> (every member value is converted at its own code-map index, also members overridden by a later duplicate; which error is returned goes through From and is not claimed) -- bounded stand-in only",
     "design_ref": "DESIGN.md §6.5"}
 PROPS["C20"]["units"] = ["nav"]
 
@@ -116,7 +116,7 @@ for _pid, _t in {
     "C08": _V + ": string_literal == RFC 8785 escaping, Value-level printer == ctext under the compact record, Display for Value" + _B + "to_string / String::from and every Unicode scalar",
     "C09": _V + " for Object::sort, string escaping and Value::canonicalize_with (every number at every array depth, objects handed on, nothing else touched) and Object::canonicalize_with (children first, then a key-ordered permutation, index rebuilt)" + _B + "the UTF-16 comparison itself (modelled comparator) and the RFC 8785 number table (dependency)",
     "C10": _V + " for the index rebuild (queryable afterwards) and Value::canonicalize_with and Object::canonicalize_with (`changes nothing else`, queryable afterwards)" + _B + "idempotence and blindness to order / spelling / spacing (relations between executions)",
-    "C11": _V + ": get_fragment family, array/object IterMapped::next, the four macro-generated keyed iterators (from the macro-expanded crate), their constructors, the unique lookups, Traverse (== the pre-order fragment list), the leaf and pass-through TryFromJson conversions" + _B + "count / volume, TryFromJson for Vec / BTreeMap",
+    "C11": _V + ": get_fragment family, array/object IterMapped::next, the four macro-generated keyed iterators (from the macro-expanded crate), their constructors, the unique lookups, Traverse (== the pre-order fragment list), the leaf and pass-through TryFromJson conversions" + _B + "count / volume, TryFromJson for Vec",
     "C12": _V + ": SmallString::parse_in == option-parametric str_run, options frame, through doc(.., options), the option record reaching the parser unchanged through every *_with entry point" + _B + "lenient decoding over byte slices (std decoding assumed)",
     "C13": _V + ": generic container printers == documented layout, Value-level printer, width == printed length, no line break without limits" + _B + "to_string end to end",
     "C14": _V + ": frame contracts (Object's Eq/Ord/Hash read the entry list only); the derived eq / partial_cmp / cmp of Value and Entry (from the macro-expanded crate) == a recursive specification proved to be a total order consistent with ==; derived Hash for Value == vhash, equal values hash identically" + _B + "the dependency types' own orders and hashes, history independence end to end",
